@@ -12,6 +12,9 @@ use std::io;
 use std::sync::Arc;
 
 const DEFAULT_PROTOCOL: Protocol = Protocol::Http1;
+const ALL_PROTOCOLS: &[Protocol] = &[Protocol::Http1, Protocol::Http2, Protocol::Http3];
+/// The reverse proxy translates only HTTP/1.1 and HTTP/3
+const REVERSE_PROXY_PROTOCOLS: &[Protocol] = &[Protocol::Http1, Protocol::Http3];
 
 #[derive(Debug, Copy, Clone, PartialEq, Eq, PartialOrd, Ord)]
 pub(crate) enum Protocol {
@@ -264,47 +267,28 @@ impl TlsDemux {
 
         let (protocol, channel, host, auth) = if let Some(h) = self.main_hosts.get(&sni) {
             (
-                self.select_tunnel_channel_protocol(parsed_alpn.iter(), alpn)?,
+                self.select_channel_protocol(parsed_alpn.iter(), alpn, ALL_PROTOCOLS)?,
                 Channel::Tunnel,
                 h,
                 None,
             )
         } else if let Some(h) = self.reverse_proxy_hosts.get(&sni) {
-            match parsed_alpn
-                .iter()
-                .filter(|x| matches!(x, Protocol::Http1 | Protocol::Http3))
-                .max()
-                .cloned()
-            {
-                Some(x) => (x, Channel::ReverseProxy, h, None),
-                None if alpn.clone().peekable().peek().is_none() => {
-                    (DEFAULT_PROTOCOL, Channel::ReverseProxy, h, None)
-                }
-                None => {
-                    return Err(format!(
-                        "Unexpected ALPN on reverse proxy connection {:?}",
-                        alpn.map(utils::hex_dump).collect::<Vec<_>>()
-                    ))
-                }
-            }
+            (
+                self.select_channel_protocol(parsed_alpn.iter(), alpn, REVERSE_PROXY_PROTOCOLS)?,
+                Channel::ReverseProxy,
+                h,
+                None,
+            )
         } else if let Some(h) = self.ping_hosts.get(&sni) {
             (
-                parsed_alpn
-                    .iter()
-                    .max()
-                    .cloned()
-                    .unwrap_or(DEFAULT_PROTOCOL),
+                self.select_channel_protocol(parsed_alpn.iter(), alpn, ALL_PROTOCOLS)?,
                 Channel::Ping,
                 h,
                 None,
             )
         } else if let Some(h) = self.speedtest_hosts.get(&sni) {
             (
-                parsed_alpn
-                    .iter()
-                    .max()
-                    .cloned()
-                    .unwrap_or(DEFAULT_PROTOCOL),
+                self.select_channel_protocol(parsed_alpn.iter(), alpn, ALL_PROTOCOLS)?,
                 Channel::Speedtest,
                 h,
                 None,
@@ -314,7 +298,7 @@ impl TlsDemux {
             .and_then(|(a, b)| self.main_hosts.get(b).zip(Some(a)))
         {
             (
-                self.select_tunnel_channel_protocol(parsed_alpn.iter(), alpn)?,
+                self.select_channel_protocol(parsed_alpn.iter(), alpn, ALL_PROTOCOLS)?,
                 Channel::Tunnel,
                 host,
                 Some(String::from(auth_creds)),
@@ -322,7 +306,7 @@ impl TlsDemux {
         } else if let Some(main_hostname) = self.allowed_sni_to_main_host.get(&sni) {
             let host = self.main_hosts.get(main_hostname).unwrap();
             (
-                self.select_tunnel_channel_protocol(parsed_alpn.iter(), alpn)?,
+                self.select_channel_protocol(parsed_alpn.iter(), alpn, ALL_PROTOCOLS)?,
                 Channel::Tunnel,
                 host,
                 None,
@@ -344,28 +328,34 @@ impl TlsDemux {
         })
     }
 
-    fn select_tunnel_channel_protocol<'i1, 'i2, I1, I2>(
+    /// Select the most preferred protocol among the ones the client advertised,
+    /// the listener has enabled and the channel supports
+    fn select_channel_protocol<'i1, 'i2, I1, I2>(
         &self,
         parsed_advertised_alpn: I1,
         advertised_alpn: I2,
+        channel_protocols: &[Protocol],
     ) -> Result<Protocol, String>
     where
         I1: Iterator<Item = &'i1 Protocol>,
         I2: Iterator<Item = &'i2 [u8]> + Clone,
     {
+        let is_usable =
+            |x: &Protocol| self.tunnel_protocols.contains(x) && channel_protocols.contains(x);
+
         match parsed_advertised_alpn
-            .filter(|x| self.tunnel_protocols.contains(x))
+            .filter(|x| is_usable(x))
             .max()
             .cloned()
         {
             Some(x) => Ok(x),
-            None if self.tunnel_protocols.contains(&DEFAULT_PROTOCOL)
+            None if is_usable(&DEFAULT_PROTOCOL)
                 && advertised_alpn.clone().peekable().peek().is_none() =>
             {
                 Ok(DEFAULT_PROTOCOL)
             }
             None => Err(format!(
-                "Unexpected ALPN on reverse proxy connection {:?}",
+                "Unexpected ALPN {:?}",
                 advertised_alpn.map(utils::hex_dump).collect::<Vec<_>>()
             )),
         }
